@@ -98,3 +98,33 @@ Example C10_text_roundtrip_example :
   parse_text (render ex_doc2 []) = parse_text (render ex_doc1 []).
 Proof. exact (conj (proj1 ex_parsed) (proj1 (proj2 ex_parsed))). Qed.
 Print Assumptions C10_text_roundtrip_example.
+
+From YG Require Import Lexer Front YParser ParserRoundtrip ParserRoundtripRules.
+Close Scope Z_scope.
+Open Scope nat_scope.
+
+(* the rules of that AST in closed form: every alternative of every group is one rule, in order, with exactly its symbols and action bodies in order and its (last) %prec symbol (group_rules) *)
+Theorem C10_rules_closed_form :
+  forall (sp : spec) (rest : list Ascii.ascii),
+         a_rules (spec_ast sp rest) = flat_map group_rules (s_groups sp).
+Proof. exact ParserRoundtripRules.spec_ast_rules. Qed.
+Print Assumptions C10_rules_closed_form.
+
+From YG Require Import Lexer Front FrontUsable YParser LexerRoundtrip ParserRoundtrip ParserRoundtripLex ParserRoundtripRules.
+Close Scope Z_scope.
+Open Scope nat_scope.
+
+(* text -> lexer -> parser -> visitor: whenever the front end accepts the text, the rules it hands on are the alternatives written in the text, in order, symbol by symbol, whatever the layout *)
+Theorem C10_text_to_rules :
+  forall (d : doc) (trail : list sepr) (sp : spec) (v : visited),
+         wf_doc d trail ->
+         Forall2 ltm (map snd d) (spec_kv sp) ->
+         spec_ok sp = true ->
+         match parse_text (render d trail) with
+         | PAst a => visit a
+         | _ => inl FNoStart
+         end = inr v ->
+         map (fun x : vrule => (v_lhs x, v_rhs x)) (vs_rules v) =
+         map (fun r : ruledef => (r_lhs r, rsyms (r_rhs r))) (flat_map group_rules (s_groups sp)).
+Proof. exact ParserRoundtripRules.text_rules. Qed.
+Print Assumptions C10_text_to_rules.
